@@ -40,6 +40,14 @@ pub fn configs(thorough: bool) -> Vec<(CfCfg, bool)> {
         v.push((CfCfg::new(3, 2, 2, fps3.clone(), vec![1, 0, 1], Some(2), 0, false), false));
         v.push((CfCfg::new(2, 2, 3, vec![1, 2, 6, 7], vec![1, 0, 1, 1], Some(2), 0, false), false));
     }
+    // four buckets, three fingerprints with three distinct alternate offsets, long relocation chains (budget 6): a chain can
+    // pass A -> B -> C, come back, meet further copies of the fingerprint in hand and still end in a free slot. The full state
+    // space does not close in minutes, so these two run as breadth-first PREFIXES under a state cap (heavy = true), without
+    // the union operation: every state up to the reported depth is expanded with every insert / delete and every eviction
+    // outcome; they are reported apart and do not count towards the `exhaustive` flag.
+    for alt in [vec![1u64, 2, 3], vec![3, 1, 2]] {
+        v.push((CfCfg::new(2, 4, 2, fps3.clone(), alt, Some(6), 0, false), true));
+    }
     // four buckets (index masking, alternate = i1 ^ offset with offsets up to 3), two fingerprints
     for alt in [vec![1u64, 2], vec![3, 0], vec![2, 3]] {
         v.push((CfCfg::new(2, 4, 2, vec![1, 3], alt, Some(2), 0, false), false));
@@ -67,23 +75,24 @@ fn main() {
     }
     let cfgs = configs(run.thorough());
     let timing = std::env::var("VERIF_TIMING").is_ok();
-    let results = par_map(&cfgs, n_threads(), |(cfg, _heavy)| {
+    let prefix_cap: u64 = if run.thorough() { 40_000 } else { 9_000 };
+    let results = par_map(&cfgs, n_threads(), |(cfg, heavy)| {
         let label = cfg.label.clone();
         let t0 = std::time::Instant::now();
         let model = match CfModel::new(cfg.clone(), Mode::Classes, true) {
             Ok(mut m) => {
-                m.with_union = true;
+                m.with_union = !*heavy;
                 // one-step look-ahead from every duplicate arrival: quick = the kick-budget-1 configurations, thorough = budgets <= 2
                 m.lookahead = cfg.budget.map_or(false, |b| b <= if std::env::args().any(|a| a == "thorough") { 2 } else { 1 }) && cfg.bucketsize * cfg.n_buckets <= 6;
                 m
             }
             Err(e) => return Err((label, e)),
         };
-        let ex = cuckoo::explore(&model, false, 5_000_000, 1);
+        let ex = cuckoo::explore(&model, false, if *heavy { prefix_cap } else { 5_000_000 }, 1);
         if timing {
             eprintln!("{:7.2}s {} states={} transitions={}", t0.elapsed().as_secs_f64(), label, ex.stats.states, ex.stats.transitions);
         }
-        Ok((label, model.classes.n_classes, ex))
+        Ok((label, model.classes.n_classes, ex, *heavy))
     });
     let mut all_closed = true;
     let mut kinds = std::collections::BTreeMap::<u32, u64>::new();
@@ -91,7 +100,16 @@ fn main() {
     for r in results {
         match r {
             Err((label, e)) => run.violation(Viol { property: "C14".into(), signature: format!("{} classes", label), message: e.clone(), replay: json!({"structure": "CuckooFilter", "config": label, "what": e}) }),
-            Ok((label, n_classes, ex)) => {
+            Ok((label, n_classes, ex, heavy)) => {
+                if heavy {
+                    run.ev.push("capped_prefix_configurations", json!({"config": label, "classes": n_classes, "state_cap": prefix_cap, "states": ex.stats.states, "transitions": ex.stats.transitions,
+                        "depth_reached": ex.stats.max_depth, "closed": ex.stats.closed, "operations": "insert, delete (no union)"}));
+                    run.ev.add_u64("transitions_in_capped_prefixes", ex.stats.transitions);
+                    for v in ex.viols {
+                        run.violation(v);
+                    }
+                    continue;
+                }
                 all_closed &= ex.stats.closed;
                 n_cfg += 1;
                 run.ev.add_u64("states", ex.stats.states);
